@@ -98,8 +98,12 @@ class BadStr:
 
 
 def _quiet(f):
+    from .common import ImplTimeout, time_limit
     try:
-        return ("ok", f())
+        with time_limit():
+            return ("ok", f())
+    except ImplTimeout:
+        return ("err", "did-not-terminate")
     except RecursionError:
         return ("err", "RecursionError")
     except BaseException as e:  # noqa: BLE001 - faults are the point
